@@ -136,3 +136,48 @@ def geodesic_depth(mask, seed):
         seen |= nxt
         cur = nxt
         d += 1
+
+
+# ------------------------------------------------------------------------------------------ batched connectivity model
+def batch_fill(mask, seed):
+    """mask: (B,a,b,c) bool, seed: (a,b,c) or (B,a,b,c) bool. Cells of mask face-connected inside mask to mask&seed.
+    Plain numpy flood fill iterated to the fixpoint (cross-validated against scipy.ndimage.label by `crosscheck`)."""
+    mask = np.asarray(mask, dtype=bool)
+    cur = mask & seed
+    while True:
+        nxt = cur.copy()
+        nxt[:, 1:] |= cur[:, :-1]
+        nxt[:, :-1] |= cur[:, 1:]
+        nxt[:, :, 1:] |= cur[:, :, :-1]
+        nxt[:, :, :-1] |= cur[:, :, 1:]
+        nxt[:, :, :, 1:] |= cur[:, :, :, :-1]
+        nxt[:, :, :, :-1] |= cur[:, :, :, 1:]
+        nxt &= mask
+        if np.array_equal(nxt, cur):
+            return cur
+        cur = nxt
+
+
+def batch_keep(mat):
+    return batch_fill(mat, bottom_seed(mat.shape[1:]))
+
+
+def batch_floating(mat):
+    mat = np.asarray(mat, dtype=bool)
+    return mat & ~batch_keep(mat)
+
+
+def batch_enclosed(mat):
+    mat = np.asarray(mat, dtype=bool)
+    return ~mat & ~batch_fill(~mat, sides_top_seed(mat.shape[1:]))
+
+
+def crosscheck(mat, stride):
+    """every `stride`-th array of the batch: numpy fixpoint model == scipy.ndimage.label model (both seeds). Returns #checked."""
+    mat = np.asarray(mat, dtype=bool)
+    k = batch_keep(mat[::stride])
+    e = batch_enclosed(mat[::stride])
+    for i, m in enumerate(mat[::stride]):
+        assert np.array_equal(k[i], keep_connected_to_bottom(m)), "reference models disagree (keep)"
+        assert np.array_equal(e[i], enclosed_background(m)), "reference models disagree (enclosed)"
+    return len(k)
